@@ -860,7 +860,7 @@ def createPrice (s : State) (m : Msg) : State × MsgOut :=
 structure Tx where
   size : Nat
   pubkeyMatches : Bool     -- SetPubKeyDecorator: pubkey address = signer
-  sigValid : Bool          -- result of pubKey.VerifySignature — computed and discarded (F-10a)
+  sigValid : Bool          -- result of pubKey.VerifySignature (boolean input; ed25519 is not modelled)
   msgs : List Msg
 deriving Repr, DecidableEq, Inhabited
 
@@ -878,11 +878,13 @@ def anteNonces (maxNonce : Nat) : Store → List Msg → Option Store
     | some st' => anteNonces maxNonce st' ms
     | none => none
 
-/-- the oracle branch of the ante chain: size limit (txsize_gas.go), pubkey/signer match
-(SetPubKeyDecorator), signature step (result ignored), nonce (IncrementSequenceDecorator). -/
+/-- the oracle branch of the ante chain, in decorator order: size limit (txsize_gas.go), pubkey/signer
+match (SetPubKeyDecorator), signature (SigVerificationDecorator: ErrUnauthorized when
+`!pubKey.VerifySignature(...)`), nonce (IncrementSequenceDecorator). -/
 def anteHandle (s : State) (tx : Tx) : Except String Store :=
   if tx.size > 1000 then .error "size"
   else if !tx.pubkeyMatches then .error "pubkey"
+  else if !tx.sigValid then .error "sig"
   else
     match anteNonces s.store.params.maxNonce s.store tx.msgs with
     | some st => .ok st
